@@ -69,7 +69,12 @@ func reflectMainPrePatch(path string) (string, error) {
 // reflectMainPostPatch populates the name mapping with the final obfuscated->real name
 // mappings after all packages have been analyzed.
 func reflectMainPostPatch(file []byte, lpkg *listedPackage, pkg pkgCache) []byte {
-	obfVarName := hashWithPackage(lpkg, "_originalNamePairs")
+	obfVarName := "_originalNamePairs"
+	if lpkg.ToObfuscate {
+		// The variable is declared in lpkg, so it is only renamed if lpkg is obfuscated.
+		// Obfuscated dependencies still need their names restored otherwise.
+		obfVarName = hashWithPackage(lpkg, obfVarName)
+	}
 	namePairs := fmt.Appendf(nil, "%s = []string{", obfVarName)
 
 	keys := slices.Sorted(maps.Keys(pkg.ReflectObjectNames))
